@@ -90,3 +90,43 @@ void drv_c08_pow(int tier, unsigned long seed, const char *extra) {
     rec_quiesce();
   }
 }
+
+/* c08_uismall: mpz_powm_ui with SMALL exponents (its own square-and-multiply loop, exponents below 20; from 20 on it forwards to mpz_powm) at the bases where an
+   intermediate power is as long as the modulus: for every e = 1..21 and modulus classes of 1, 2, 3, 4 and 32 limbs (top bit set: 2^(64n-1), 2^(64n-1)+29, B^n-1, B^n-2,
+   2^(64n-1)+2^(32n)+12345; top bit clear: 2^(64n-2)+1), the bases floor(root_e(B^n - 1)) and floor(root_e(m)), floor(root_e(2m)) and their neighbours -- b^e just
+   below / above the modulus and just below B^n, where "shorter than m, no need to divide yet" decisions go wrong -- plus the same residues as multi-limb bases
+   (b + m, b + 5m) and negated.  The roots are taken by recorded mpz_root calls, so the specification sees every value. */
+void drv_c08_uismall(int tier, unsigned long seed, const char *extra) {
+  shard_t sh = shard_parse(extra); long x = 0; int mi, ci, e, j;
+  static const int mns[] = {1, 2, 3, 4, 32};
+  for (mi = 0; mi < (sh.pure ? 2 : 5); mi++) for (ci = 0; ci < 6; ci++) {
+    int mn = mns[mi];
+    x++; if (!MINE(sh, x)) continue;
+    rec_reset("c08_uismall", x, seed);
+    for (j = 0; j < 7; j++) callf("mpz_init", j);
+    /* modulus in 2 */
+    callf("mpz_set_ui", 2, (uint64_t)0);
+    if (ci == 0) callf("mpz_setbit", 2, (uint64_t)(64 * mn - 1));
+    else if (ci == 1) { callf("mpz_setbit", 2, (uint64_t)(64 * mn - 1)); callf("mpz_add_ui", 2, 2, (uint64_t)29); }
+    else if (ci == 2) { callf("mpz_setbit", 2, (uint64_t)(64 * mn)); callf("mpz_sub_ui", 2, 2, (uint64_t)1); }
+    else if (ci == 3) { callf("mpz_setbit", 2, (uint64_t)(64 * mn)); callf("mpz_sub_ui", 2, 2, (uint64_t)2); }
+    else if (ci == 4) { callf("mpz_setbit", 2, (uint64_t)(64 * mn - 1)); callf("mpz_setbit", 2, (uint64_t)(32 * mn)); callf("mpz_add_ui", 2, 2, (uint64_t)12345); }
+    else { callf("mpz_setbit", 2, (uint64_t)(64 * mn - 2)); callf("mpz_add_ui", 2, 2, (uint64_t)1); }
+    callf("mpz_set_ui", 5, (uint64_t)0); callf("mpz_setbit", 5, (uint64_t)(64 * mn)); callf("mpz_sub_ui", 5, 5, (uint64_t)1);         /* B^n - 1 */
+    callf("mpz_mul_2exp", 6, 2, (uint64_t)1);                                                                                       /* 2m */
+    for (e = 1; e <= (sh.pure ? 4 : 21); e++) { int src, d, v;
+      if (mn == 32 && !tier && e > 6 && (e & 1)) continue;
+      for (src = 0; src < 3; src++) {
+        callf("mpz_root", 4, src == 0 ? 5 : src == 1 ? 2 : 6, (uint64_t)e);
+        for (d = -1; d <= 1; d++) { if (src == 0 && d == 1 && e == 1) continue;
+          if (d < 0) { if (mpz_sgn(Zp[4]) == 0) continue; callf("mpz_sub_ui", 0, 4, (uint64_t)1); } else if (d > 0) callf("mpz_add_ui", 0, 4, (uint64_t)1); else callf("mpz_set", 0, 4);
+          for (v = 0; v < 4; v++) { if (v && (d + e + src) % 3 != v - 1 && !tier) continue;
+            if (v == 1) callf("mpz_add", 0, 0, 2); else if (v == 2) { callf("mpz_addmul_ui", 0, 2, (uint64_t)4); } else if (v == 3) callf("mpz_neg", 0, 0);
+            shrinkz(3); callf("mpz_powm_ui", 3, 0, (uint64_t)e, 2);
+            if (v == 0) { callf("mpz_set", 3, 0); callf("mpz_powm_ui", 3, 3, (uint64_t)e, 2); callf("mpz_neg", 2, 2); shrinkz(3); callf("mpz_powm_ui", 3, 0, (uint64_t)e, 2); callf("mpz_neg", 2, 2);
+                          callf("mpz_set_ui", 1, (uint64_t)e); shrinkz(3); callf("mpz_powm", 3, 0, 1, 2); } } } }
+    }
+    for (j = 0; j < 7; j++) callf("mpz_clear", j);
+    rec_quiesce();
+  }
+}
